@@ -1,19 +1,21 @@
+import os
 from reghelp import *
 
-_SHAPES = [None, None, 'two', None, 'one', None]
+_SHAPES_ASAN = [None, None, None, 'two']
+_SHAPES_PLAIN = [None, None, 'two', None, None, 'one']
 
 CHECK = dict(
         runs=[
-            dict(harness='h_sock', flavor='asan', execs=dict(quick=40, thorough=220),
-                 timeout=dict(quick=240, thorough=900), shapes=_SHAPES, cfg={}),
-            dict(harness='h_sock', flavor='plain', execs=dict(quick=56, thorough=400),
-                 timeout=dict(quick=240, thorough=900), shapes=_SHAPES, cfg={}),
+            dict(harness='h_sock', flavor='asan', execs=dict(quick=30, thorough=200),
+                 timeout=dict(quick=240, thorough=900), shapes=_SHAPES_ASAN, cfg={}),
+            dict(harness='h_sock', flavor='plain', execs=dict(quick=48, thorough=400),
+                 timeout=dict(quick=240, thorough=900), shapes=_SHAPES_PLAIN, cfg={}),
             # client and server vCPUs are different OS threads in this run (cfg vcpus=2): TSan watches the
             # process-wide state of the engines / socket layer and the harness ledger
-            dict(harness='h_sock', flavor='tsan', execs=dict(quick=8, thorough=40),
+            dict(harness='h_sock', flavor='tsan', execs=dict(quick=6, thorough=36),
                  timeout=dict(quick=300, thorough=900), shapes=[None], cfg={'vcpus': 2}),
         ],
-        par=12,
+        par=14,
         level='exploration',
         rule='one evaluation = one seeded execution (fresh process): a configuration (master engine epoll / epoll-ng per vCPU, '
              'level- or edge-triggered streams per side, TCP loopback or Unix-domain sockets, 1 or 2 vCPUs, 1-40 connections, '
@@ -24,14 +26,14 @@ CHECK = dict(
              'batches, stale events, EAGAINs per side, writev resumed inside an element, both directions of one fd waited for at '
              'once, timeouts, timeouts with data in flight, EOF inside a full read)',
         floors=dict(
-            quick=dict(evaluations=80, events=150000, distinct=40,
-                       cov={'shim_hits': 100000, 'eagain_reader_side': 5000, 'eagain_writer_side': 500,
+            quick=dict(evaluations=70, events=100000, distinct=40,
+                       cov={'shim_hits': 80000, 'eagain_reader_side': 5000, 'eagain_writer_side': 500,
                             'writev_resumed_inside_element': 500, 'both_directions_waiting_on_one_fd': 100,
-                            'C_EPOLL_BATCH_FULL': 10, 'timeout_with_data_in_flight': 100, 'eof_inside_full_read': 100,
+                            'C_EPOLL_BATCH_FULL': 8, 'timeout_with_data_in_flight': 100, 'eof_inside_full_read': 100,
                             'timeouts_reader': 200, 'timeouts_writer': 100, 'iovec_empty_elements': 10000,
                             'shim_short_counts': 5000, 'shim_eintr': 1000, 'shim_spurious_eagain': 500,
                             'C_EPOLL_WAIT_FD': 10000}),
-            thorough=dict(evaluations=550, events=3000000, distinct=300,
+            thorough=dict(evaluations=560, events=3000000, distinct=300,
                           cov={'shim_hits': 2000000, 'eagain_reader_side': 100000, 'eagain_writer_side': 10000,
                                'writev_resumed_inside_element': 10000, 'both_directions_waiting_on_one_fd': 2000,
                                'C_EPOLL_BATCH_FULL': 100, 'timeout_with_data_in_flight': 2000, 'eof_inside_full_read': 1000,
@@ -56,3 +58,6 @@ CHECK = dict(
                    'stuck detector. C_EPOLL_BOTH_DIR of the repo hook counts every re-arm, so "both directions armed" is measured by the harness instead '
                    '(EAGAIN seen by the shim while the other direction of the same fd stays suspended in its call).',
     )
+# mutation trials in a scratch worktree may restrict the flavors to be built (VERIF_FLAVORS=asan,plain)
+if os.environ.get('VERIF_FLAVORS'):
+    CHECK['runs'] = [r for r in CHECK['runs'] if r['flavor'] in os.environ['VERIF_FLAVORS'].split(',')]
